@@ -21,6 +21,11 @@ DELETE_CALLERS = {
     "storage_base.DataSourceMetadataSource.forget_everything": "deletes the metadata root",
     "storage_base.Codec.NullStrategy.store": "removes the pointer of an override key when the new result is null",
 }
+# which delete operation each caller may use: only the metadata source removes versions; the null
+# strategy only unlinks the mutable pointer (versions referenced by older mementos must survive)
+DELETE_OPS = {
+    "storage_base.Codec.NullStrategy.store": {"delete_nonversioned_key"},
+}
 # write-mode opens in the filesystem data source
 WRITE_OPEN_SITES = {
     FSDS + ".output": "object file under a fresh version directory",
@@ -127,6 +132,15 @@ def _check_dedupe(ck, fa, ex, outs, R2):
     ok = not (set(out_nodes) & live)
     ck.ob(R2, fa.key(ex, "no-write-when-present"), ok, "output is reached only under an override or when the content key is absent" if ok else
           "a new object version is written although the content key exists and no override was given", fa.where(ex))
+    # under an override the new bytes are always written (the override location is mutable: the
+    # last write must win)
+    for v in ov_nodes:
+        starts = [d for (d, l) in fa.cfg.succ[v] if l == "T"]
+        r = fa.cfg.reach(starts, removed=out_nodes)
+        okw = fa.cfg.exit not in r
+        ck.ob(R2, fa.key(fa.cfg.node(v).ast, "override-always-writes"), okw, "with a key override the object is always written" if okw else
+              "with a key override store() can return without writing (the reuse shortcut also fires for override keys): a second result "
+              "written under the same override key is dropped and reads return the first one", fa.where(ex))
     # through the T edge: returns get_versioned_key(key) of the same key
     tl = fa.cfg.reach(ex_nodes, edge_ok=lambda s, d, l: not (s in ex_nodes and l == "F"), include_start=False)
     rets = [fa.cfg.node(i).ast for i in tl if fa.cfg.node(i).kind == "stmt" and isinstance(fa.cfg.node(i).ast, ast.Return)]
@@ -187,6 +201,11 @@ def _rest(ck, fa, R3, R4, R5, R6):
         recv = A.dotted(A.call_recv(call)) or ""
         if fi.qual.startswith("storage_base.StorageBackendBase") or recv == "self._data_source":
             allowed = False
+        if fi.qual in DELETE_OPS and A.call_attr(call) not in DELETE_OPS[fi.qual]:
+            ck.ob(R4, "%s::%s::operation" % (fi.qual, A.call_attr(call)), False,
+                  "%s calls %s: it may only remove the pointer (%s); deleting all versions destroys objects that older mementos still reference"
+                  % (fi.qual.split(".")[-2], A.call_attr(call), sorted(DELETE_OPS[fi.qual])), A.loc(fi, call))
+            continue
         ck.ob(R4, "%s::%s" % (fi.qual, A.short(call, 70)), allowed,
               DELETE_CALLERS.get(fi.qual, "internal to the data source") if allowed else
               "data deletion called from %s: result objects shared by other mementos can disappear" % fi.qual, A.loc(fi, call))
@@ -208,6 +227,9 @@ def _rest(ck, fa, R3, R4, R5, R6):
         ck.ob(R4, m.qual + "::no-data-source", not bad, "%s does not touch the data source" % name if not bad else
               "%s operates on the data source (%s)" % (name, A.short(bad[0], 50)), A.loc(m, bad[0] if bad else m.node))
 
+    # ---- R7: a content key is visible only once its bytes are completely written
+    from .c08 import check_write_order
+    check_write_order(ck, "C07.R7", only_output=True)
     # ---- R5
     fo = FA(ck, FSDS + ".output")
     opens = [c for c in fo.calls("open")]
